@@ -69,9 +69,16 @@ func (c *exitAfterDeferChecker) VisitFuncDecl(fn *ast.FuncDecl) {
 			}
 			if deferStmt != nil {
 				switch qualifiedName(n.Fun) {
-				case "log.Fatal", "log.Fatalf", "log.Fatalln", "os.Exit":
-					c.warn(n, deferStmt)
-					return false
+				case "log.Fatal", "log.Fatalf", "log.Fatalln":
+					if isPkgFunc(c.ctx, n.Fun, "log") {
+						c.warn(n, deferStmt)
+						return false
+					}
+				case "os.Exit":
+					if isPkgFunc(c.ctx, n.Fun, "os") {
+						c.warn(n, deferStmt)
+						return false
+					}
 				}
 			}
 		}
